@@ -574,6 +574,16 @@ func (p *Parser) parseComponentStmt() ast.Statement {
 		}
 
 		stmt.Slots = p.parseSlots()
+
+		// after the last slot comes the "@end" of the component
+		if len(p.errors) == 0 && !p.curTokenIs(token.END) {
+			p.newError(
+				p.curToken.ErrorLine(),
+				fail.ErrWrongNextToken,
+				token.String(token.END),
+				token.String(p.curToken.Type),
+			)
+		}
 	}
 
 	p.components = append(p.components, stmt)
@@ -675,7 +685,11 @@ func (p *Parser) parseSlots() []*ast.SlotStmt {
 			Body:  p.parseBlockStmt(),
 		})
 
-		p.nextToken() // skip block statement
+		// the body of a slot is closed by its own "@end"
+		if !p.expectPeek(token.END) { // move to "@end"
+			return nil
+		}
+
 		p.nextToken() // skip "@end"
 
 		for p.curTokenIs(token.HTML) {
